@@ -20,6 +20,7 @@ import (
 	"fmt"
 	"math/big"
 	"os"
+	"runtime"
 	"runtime/debug"
 	"sort"
 	"strconv"
@@ -77,7 +78,7 @@ func plan() []planItem {
 		return []planItem{{i, n, d}}
 	}
 	if report.Tier() == "thorough" {
-		return []planItem{{0, 4, 7}, {1, 4, 7}, {2, 1, 6}, {3, 2, 8}, {4, 5, 6}}
+		return []planItem{{0, 5, 7}, {1, 2, 6}, {2, 1, 6}, {3, 3, 8}, {4, 5, 6}}
 	}
 	return []planItem{{0, 7, 6}, {1, 7, 6}, {2, 2, 5}}
 }
@@ -162,6 +163,8 @@ type env struct {
 	anchors    map[string]*explore.Node
 	rebuilding bool
 	rebuilt    int
+	hashed     int
+	maxHeap    uint64
 }
 
 func main() {
@@ -182,8 +185,8 @@ func must(err error) {
 
 func run(r *report.Run, shard, nshards int, replayFile string) {
 	// the search allocates many short-lived store overlays: collect less often, within a per-process budget
-	debug.SetGCPercent(400)
-	debug.SetMemoryLimit(3 << 30)
+	debug.SetGCPercent(200)
+	debug.SetMemoryLimit(2 << 30)
 	sl := slots()[shard]
 	var path []string
 	var rep report.Violation
@@ -228,7 +231,7 @@ func run(r *report.Run, shard, nshards int, replayFile string) {
 		e.keepDepth = kd
 	}
 
-	r.Rule = "BFS over Vote(v,claim) (really signed MsgSendToPalomaClaim / MsgBatchSendToRemoteClaim txs through ante + router) for competing claims cA,cB (deposits of 7 / 9, same nonce 1), cX (batch-executed, nonce 1), cC (deposit, nonce 2) [thorough: + cU, deposit of an unregistered token, nonce 1]; Tally (skyway.EndBlocker); CatchUp (skyway.EndBlocker at height 150 => UpdateValidatorNoncesToLatest); Power(v,p) p in {0, p0, 2*p0} (staking last-validator-power + last-total-power); Override(k) k in {last-1,last,last+1} (MsgNonceOverrideProposal by the gov authority); one search per stake distribution; a state is distinct by (skyway store, last powers, ghost voter sets / observed set / epoch cursor)"
+	r.Rule = "BFS over Vote(v,claim) (really signed MsgSendToPalomaClaim / MsgBatchSendToRemoteClaim txs through ante + router) for competing claims cA,cB (deposits of 7 / 9, same nonce 1), cX (batch-executed, nonce 1), cC (deposit, nonce 2) [thorough: + cU, deposit of an unregistered token, nonce 1]; Tally (skyway.EndBlocker); CatchUp (skyway.EndBlocker at height 150 => UpdateValidatorNoncesToLatest); Power(v,p) p in {0, p0, 2*p0} (staking last-validator-power + last-total-power); Override(k) k in {last-1,last,last+1} (MsgNonceOverrideProposal by the gov authority); one search per stake distribution (quick: 34-33-33 and 50-30-20 to depth 6, 1-1-1 to depth 5; thorough: 34-33-33 depth 7, 50-30-20 / 1-1-1 / 25-25-25-25 depth 6, 67-33 depth 8); a state is distinct by (skyway store, last powers, ghost voter sets / observed set / epoch cursor); oracle after every step: each newly Observed claim has distinct-voter power*100 > 66*total, is the only one at its nonce in this reset epoch and sits at cursor+1; cursor moves only by observation / reset; receiver balance, supply, escrow and batch deletion equal the observed claims' effects applied exactly once; Observed never reverts; a rejected vote leaves the skyway store byte-identical"
 	r.Assumptions = []string{
 		"a validator 'has voted for a claim' once a vote transaction of it for that claim hash succeeded, in any reset epoch (weakest reading: earlier votes keep counting after a reset, but only once per validator)",
 		"every successful MsgNonceOverrideProposal starts a new reset epoch, also when it writes the value the cursor already has (weakest reading: fewer constraints)",
@@ -236,6 +239,7 @@ func run(r *report.Run, shard, nshards int, replayFile string) {
 		"the explored code reads the block height only modulo 50; every step runs at height 101, CatchUp at 150",
 		"all claims carry the same remote block height; duplicate vote entries are not flagged by themselves, only an observation whose distinct voters hold <= 66%",
 		"tx atomicity re-implemented as in baseapp.runTx (ante cache, msg cache)",
+		"partial-order reduction: Power(v,p) writes only staking last powers, which only the tally reads (Attest, the claim handlers and overrideNonce never read them), so power changes are explored only directly before a Tally/CatchUp, in ascending validator order, one per validator; Override directly after Override is skipped (same state as the second alone). Depth counts every step including Power",
 	}
 	spec := explore.Spec{
 		Name:       e.d.Name,
@@ -257,7 +261,7 @@ func run(r *report.Run, shard, nshards int, replayFile string) {
 	t0 := time.Now()
 	res := explore.Run(r, spec)
 	if os.Getenv("C02_VERBOSE") != "" {
-		fmt.Fprintf(os.Stderr, "c02 worker %s %d/%d: depth %d/%d states=%d transitions=%d capped=%v %.1fs\n", e.d.Name, sl.Sub, sl.NSub, res.DepthCompleted, sl.Depth, res.States, res.Transitions, res.Capped, time.Since(t0).Seconds())
+		fmt.Fprintf(os.Stderr, "c02 worker %s %d/%d: depth %d/%d states=%d transitions=%d capped=%v %.1fs heap=%dMB rebuilt=%d\n", e.d.Name, sl.Sub, sl.NSub, res.DepthCompleted, sl.Depth, res.States, res.Transitions, res.Capped, time.Since(t0).Seconds(), e.maxHeap>>20, e.rebuilt)
 	}
 	r.Extra["states_re_executed_for_determinism_and_memory"] = float64(e.rebuilt)
 	if sl.Sub == 0 {
@@ -382,6 +386,16 @@ func (e *env) hash(n *explore.Node) string {
 		// release the store overlay: a state at the depth bound is never expanded (most states are on the last
 		// level); the others are rebuilt when they are expanded (see ops)
 		n.Ctx = sdk.Context{}
+	}
+	if len(n.Path) >= e.sl.Depth {
+		n.Ghost, n.Path = nil, nil
+	}
+	if e.hashed++; e.hashed%50000 == 0 {
+		var ms runtime.MemStats
+		runtime.ReadMemStats(&ms)
+		if ms.HeapAlloc > e.maxHeap {
+			e.maxHeap = ms.HeapAlloc
+		}
 	}
 	return string(h[:16])
 }
